@@ -68,7 +68,7 @@ def races(ctx, cfg, stderr):
 def validate(ctx, cfg, path, leg, weak_retry=True, clients=16):
     evs = vlib.read_ndjson(path)
     is_reset = lambda e: e.get("ev") == "reset"
-    fails = ctx.tlc_trace_segments("MC_TraceLin", "Trace_Lin.cfg", evs, is_reset, timeout=1500)
+    fails = ctx.tlc_trace_segments("MC_TraceLin", "Trace_Lin.cfg", evs, is_reset, timeout=2400)
     # which of the rejected segments does the weaker scan semantics of enumerate explain? (one more TLC run over all of them)
     weak_ok = set()
     cand = [i for i, (seg, idx, why) in enumerate(fails) if weak_retry and any(e.get("op") == "enum" for e in seg)]
@@ -76,7 +76,7 @@ def validate(ctx, cfg, path, leg, weak_retry=True, clients=16):
         cat = []
         for i in cand:
             cat += fails[i][0]
-        still = ctx.tlc_trace_segments("MC_TraceLin", "Trace_Lin.cfg", cat, is_reset, overrides={"Weak": "TRUE"}, timeout=1500)
+        still = ctx.tlc_trace_segments("MC_TraceLin", "Trace_Lin.cfg", cat, is_reset, overrides={"Weak": "TRUE"}, timeout=2400)
         bad = set(id(seg[0]) for seg, _, _ in still)
         bad_keys = set(json.dumps(seg[0], sort_keys=True) for seg, _, _ in still)
         for i in cand:
@@ -149,11 +149,13 @@ def run(ctx, replay):
     cfgs = RANDOM_CFGS_QUICK + ([] if quick else RANDOM_CFGS_MORE)
     # (clients, ops per client, segments, blobs)
     shapes = [(2, 6, 12, 3, ""), (3, 5, 10, 4, ""), (4, 4, 6, 3, ""), (4, 10, 12, 5, "enumrm")] if quick else \
-        [(2, 8, 40, 3, ""), (3, 6, 40, 5, ""), (4, 5, 30, 4, ""), (8, 3, 12, 4, ""), (4, 10, 40, 5, "enumrm"), (4, 12, 30, 6, "enumrm"), (3, 12, 30, 6, "enumrm")]
+        [(2, 8, 30, 3, ""), (3, 6, 30, 5, ""), (4, 5, 24, 4, ""), (8, 3, 8, 4, ""), (4, 10, 30, 5, "enumrm"), (4, 12, 24, 6, "enumrm"), (3, 12, 24, 6, "enumrm")]
     # the linearization search is exponential in the number of overlapping calls (measured on memory: 16 clients x 1
     # operation x 10 segments = 7 M states, 11 min; 16 x 2 did not finish in 15 min): 12 and 16 clients run on four
     # configurations only, with few segments
-    heavy = [] if quick else [(12, 2, 4, 3, ""), (16, 1, 3, 3, "")]
+    # (sized so that every validation stays well inside its time-out also on a machine that is busy with other checks:
+    # with 40 / 12 segments and 12 x 2 the longest validation was close to 25 min and timed out under load)
+    heavy = [] if quick else [(12, 1, 4, 3, ""), (16, 1, 2, 3, "")]
 
     if os.environ.get("VERIF_C14_CFGS"):  # development aid: only these configurations
         cfgs = os.environ["VERIF_C14_CFGS"].split(";")
